@@ -969,9 +969,12 @@ package res
 //@ pred nodeOK(c *node) = nr[ref(c)] >= 0 && imp(c.mounted, nr[ref(c)] == 0 && nlit[ref(c)] && len(c.params) == 0)
 //@     && forall(k, 0, len(c.params), 0 <= c.params[k].idx && c.params[k].idx < nr[ref(c)])
 //@     && imp(c.hs != nil, forall(k, 0, len(c.hs.group), imp(len(c.hs.group[k].str) == 0, 0 <= c.hs.group[k].idx && c.hs.group[k].idx < nr[ref(c)])))
-//@ pred childOK(l *node, c *node, literal bool) = c != nil && isnode[ref(c)] && nr[ref(c)] == ite(c.mounted, 0, nr[ref(l)] + 1) && imp(nlit[ref(c)], nlit[ref(l)] && literal)
+//@ #   mown[mp]   the node that owns the children map mp (children maps are not shared)
+//@ ghostvar mown arr
+//@ pred childOK(l *node, c *node, literal bool) = c != nil && 0 < ref(c) && ref(c) < nextRef() && isnode[ref(c)] && nr[ref(c)] == ite(c.mounted, 0, nr[ref(l)] + 1) && imp(nlit[ref(c)], nlit[ref(l)] && literal)
 //@ pred nodeInv(n *node) = nodeOK(n) && imp(n.param != nil, childOK(n, n.param, false)) && imp(n.wild != nil, childOK(n, n.wild, false))
 //@     && forallint(k, imp(mapHasId(n.nodes, k), childOK(n, mapValId(n.nodes, k), true)))
+//@     && imp(n.nodes != nil, mown[ref(n.nodes)] == ref(n) && ref(n.nodes) < nextRef())
 //@ pred WF() = forallobj(n, isnode[n], nodeInv(asptr(n, "*res.node")))
 //@ pred muxOK(m *Mux) = m != nil && m.root != nil && isnode[ref(m.root)] && nr[ref(m.root)] == 0 && WF()
 //@
@@ -999,3 +1002,34 @@ package res
 //@   ghost entry :: use open(m.root)
 //@   ghost call matchNode#1 after :: use open(nm.n)
 //@   loop 1 invariant 0 <= start && start <= i && i <= len(subrname) && len(tokens) >= 0 && muxOK(m) && len(subrname) > 0 && ref(tokens) >= old(nextRef())
+//@
+//@ func splitPattern(p string) (tokens []string)
+//@   modifies alloc
+//@   ensures empty: imp(len(p) == 0, ref(tokens) == 0 && len(tokens) == 0)
+//@   ensures some: imp(len(p) > 0, len(tokens) >= 1)
+//@   loop 1 invariant 0 <= start && start <= i && i <= len(p) && ref(tokens) >= old(nextRef())
+//@
+//@ # ---- registration: fetch creates the nodes of a pattern and keeps the invariant (mounting is not under contract).
+//@ # NOT DISCHARGED YET: loop1.preserve (WF after linking the new node) times out; fetch is therefore not in the
+//@ # function list of C06 and the registration side is covered by the bounded harness only (DESIGN.md).
+//@ func (m *Mux) fetch(pattern string, mount *node) (rn *node, rparams []pathParam, rmi int)
+//@   requires muxOK(m) && mount == nil && nlit[ref(m.root)] && 0 < ref(m.root) && ref(m.root) < nextRef()
+//@   requires fresh: forallge(q, nextRef(), !isnode[q])
+//@   modifies alloc, ghost.isnode, ghost.nr, ghost.nlit, ghost.mown, res.node.param, res.node.wild, res.node.nodes, map:res.node.nodes
+//@   may_panic
+//@   ghost store i#1 after :: use open(l)
+//@   ghost store l#2 before :: use open(n)
+//@   ghost store l#2 before :: set nlit = store(nlit, ref(n), ite(isnode[ref(n)], nlit[ref(n)], nlit[ref(l)] && t[0] != '$' && t[0] != '*' && t[0] != '>'))
+//@   ghost store l#2 before :: set nr = store(nr, ref(n), ite(n.mounted, 0, nr[ref(l)] + 1))
+//@   ghost store l#2 before :: set isnode = store(isnode, ref(n), true)
+//@   ghost store nodes#1 after :: set mown = store(mown, ref(l.nodes), ref(l))
+//@   ghost exit :: use open(l)
+//@   ensures ok: rn != nil && isnode[ref(rn)] && muxOK(m) && nlit[ref(m.root)]
+//@   ensures params: forall(k, 0, len(rparams), 0 <= rparams[k].idx && rparams[k].idx < nr[ref(rn)])
+//@   ensures fresh: forallge(q, nextRef(), !isnode[q])
+//@   loop 1 invariant -1 <= rangeindex && rangeindex < len(tokens) + 0 && WF() && m.root != nil && isnode[ref(m.root)] && nr[ref(m.root)] == 0 && nlit[ref(m.root)]
+//@   loop 1 invariant l != nil && isnode[ref(l)] && 0 < ref(l) && ref(l) < nextRef() && mount == nil && !doMount
+//@   loop 1 invariant 0 <= mountIdx && mountIdx <= rangeindex + 1 && imp(!l.mounted, nr[ref(l)] + mountIdx == rangeindex + 1)
+//@   loop 1 invariant forall(k, 0, len(params), 0 <= params[k].idx && params[k].idx + mountIdx < rangeindex + 1) && imp(len(params) > 0, !nlit[ref(l)])
+//@   loop 1 invariant forallge(q, nextRef(), !isnode[q]) && (ref(params) == 0 || ref(params) >= old(nextRef()))
+//@   loop 2 invariant -1 <= rangeindex__2 && rangeindex__2 < len(params) + 0
